@@ -357,6 +357,7 @@ fn build_store(rng: &mut Rng, seed: u64) -> (Storage, std::path::PathBuf, Chain,
         n_types: rng.range(1, 4) as usize,
         base_ts,
         always_success: false,
+        secp: false,
     };
     let len = rng.range(20, 140);
     let chain = Chain::generate(params.clone(), len);
